@@ -50,6 +50,10 @@ CasesW2 == {[c |-> Corr(t, RefSets[3], 5, [count |-> 5, unit |-> 109], Cond("bas
 \* the condition field names that alias as well (value_count over an alias)
 CasesW3 == {[c |-> Corr(2, RefSets[3], 5, [count |-> 5, unit |-> 109], [Cond("basic", "gte", 2, TRUE, FALSE, <<>>) EXCEPT !.field = g1], FALSE),
              B |-> MkB("map", ty, TRUE, FALSE, pi)] : ty \in BOOLEAN, pi \in {"rename_win", "rename", "none"}}
+\* the conditioned renaming over rules of which none / one only through another correlation rule is of the log source:
+\* group-by and condition field are renamed iff the item applies to the correlation rule
+CasesW4 == {[c |-> Corr(t, refs, 2, [count |-> 5, unit |-> 109], Cond("basic", "gte", 2, t = 2, FALSE, <<>>), FALSE),
+             B |-> MkB("map", ty, TRUE, FALSE, "rename_win")] : t \in {1, 2}, refs \in {<<5>>, <<5, 2>>, <<2>>, <<2, 4>>, <<1>>}, ty \in BOOLEAN}
 \* (B) every backend template set x reference set x group-by variant
 CasesB == {[c |-> Corr(t, RefSets[r], gv, [count |-> 5, unit |-> 109], Cond("basic", "gte", 2, FALSE, FALSE, <<>>), gen), B |-> BSeq[b]] :
              t \in {1, 3}, r \in 1..8, gv \in 1..4, b \in 1..Len(BSeq), gen \in (IF Quick THEN {FALSE} ELSE BOOLEAN)}
@@ -64,7 +68,7 @@ RefsOf(a) == IF \E i \in 1..1 : a = CNot(CNot(CId(r1))) THEN <<1>>
              ELSE IF a = CBin("cor", CId(r4), CBin("cand", CNot(CId(r2)), CId(r1))) THEN <<4, 2, 1>> ELSE <<1, 2>>
 CasesC == {[c |-> Corr(t, RefsOf(a), 2, [count |-> 5, unit |-> 109], Cond("ext", "gte", 1, FALSE, FALSE, CPrint(a, st)), FALSE), B |-> BSeq[b]] :
              t \in {3, 4}, a \in ExtAsts, st \in {"min", "full"}, b \in {1, 7, 20, 33}}
-ASSUME LET S == SetToSeq(CasesA \cup CasesF \cup CasesW \cup CasesW2 \cup CasesW3 \cup CasesB \cup CasesC)
+ASSUME LET S == SetToSeq(CasesA \cup CasesF \cup CasesW \cup CasesW2 \cup CasesW3 \cup CasesW4 \cup CasesB \cup CasesC)
        IN  ndJsonSerialize(IOEnv.VERIF_OUT, [i \in 1..Len(S) |-> [id |-> i] @@ S[i]])
 Init == x = 0
 Next == UNCHANGED x
